@@ -42,6 +42,10 @@ OBLIGATIONS = [
     "VgiVerif.C36.C36_403_any_state",
     "VgiVerif.C36.C36_403_history",
     "VgiVerif.C36.C36_serve_authorized",
+    "VgiVerif.C36.C36_allowlist_exact",
+    "VgiVerif.C36.C36_allowlist_required",
+    "VgiVerif.C36.C36_403_configured",
+    "VgiVerif.C36.C36_403_no_principal",
 ]
 TRUSTED = [
     "CPython json.loads (body -> invalid / non-object / object with a `token` member) and json.dumps: the model starts from the parsed body",
@@ -61,7 +65,10 @@ RULE = (
     "caller is authorised or the body is valid; distinct by (app, caller, body, outcome); plus request HISTORIES on one fresh resource "
     "instance per history: limits {0,1,2,3,5,20(default)} x shapes {burst of limit+1..12 requests from one refused caller, mixed "
     "interleavings of allow-listed and refused callers, fill-the-budget-then-window-edge (dt 1022/1023/1024 ticks), refused burst then "
-    "allow-listed caller, callers sharing the empty key} x start clocks {0, <window, >window} under a controlled monotonic clock"
+    "allow-listed caller, callers sharing the empty key} x start clocks {0, <window, >window} under a controlled monotonic clock; "
+    "plus CONFIGURATIONS: introspect_principals as written by the operator {trailing comma (blank entry), whitespace-only entries, "
+    "duplicates, padded entries, only blanks, [], None, generated mixes incl. NBSP / ideographic space} x callers {anonymous, "
+    "authenticated with principal None / '' / ' ' / tab / padded / exact / other, unauthenticated} on one app per configuration"
 )
 PARTIAL = ["429 for an allow-listed caller over its budget is modelled (stateful fixed-window limiter) and checked by K, but is not part of the property"]
 MANIFEST = {
@@ -294,8 +301,8 @@ class Rig:
         for name, kw in specs.items():
             self.apps[name] = build(**kw)
         # a fresh resource instance (fresh rate-limiter state) with a given per-second limit, for request sequences
-        self.fresh_app = lambda limit: build(authenticate=authenticate, introspect_resolver=resolver, introspect_principals=ALLOW,
-                                             introspect_rate_limit=limit)
+        self.fresh_app = lambda limit, allow=ALLOW: build(authenticate=authenticate, introspect_resolver=resolver,
+                                                          introspect_principals=allow, introspect_rate_limit=limit)
         self.AuthUnavailableError = AuthUnavailableError
         # controlled clock: `_RateLimiter.allow` reads `time.monotonic()` through the module global `time`
         import vgi_rpc.http.server._introspect as intro
@@ -495,17 +502,23 @@ def _echo(token: str | None, obs: dict[str, Any], o: dict[str, Any]) -> str | No
 
 
 def run_case(ctx: Any, rig: Rig, st: State, app: str, caller: dict[str, Any], body: dict[str, Any], outcome: dict[str, Any],
-             ctype: str | None = "application/json", seq: dict[str, Any] | None = None) -> dict[str, Any] | None:
+             ctype: str | None = "application/json", seq: dict[str, Any] | None = None,
+             conf: dict[str, Any] | None = None) -> dict[str, Any] | None:
     """One request.  `seq` = {"client", "now", "case"}: the request is one step of a history against one resource instance
-    (app == "seq"); the case reported on failure is the history up to and including this step; K is done per history."""
+    (app == "seq"); the case reported on failure is the history up to and including this step; K is done per history.
+    `conf` = {"client", "allow"}: the request goes to an app built with that *configured* allow-list (app == "cfg")."""
+    allow_cfg = ALLOW if conf is None else conf["allow"]
     raw = body["raw"]
     idx = next((i for i, b in enumerate(BODIES) if b is body), None)
     case = {"app": app, "caller": caller, "body_index": idx, "body_hex": raw.hex() if idx is None else None, "body_cls": body["cls"],
             "body_preview": raw[:80].decode("latin-1"), "outcome": _outcome_case(outcome), "ctype": ctype}
     if seq is not None:
         case = seq["case"]
+    if conf is not None:
+        case["allow"] = list(allow_cfg)
     req, token = parse_body(raw, st.max_body)
-    authorised = app != "noauth" and caller["mode"] == "auth" and (caller.get("principal") or "") in ALLOW
+    # the spec: authenticated, and the principal is a non-empty string that occurs, as written, among the configured names
+    authorised = app != "noauth" and caller["mode"] == "auth" and bool(caller.get("principal")) and caller.get("principal") in allow_cfg
     unencodable = req["parsed"][0] == "object" and req["parsed"][1][0] == "unencodable"
     malformed = token is None or token == "" or len(token) > st.max_token or unencodable or req["content_length"] > st.max_body
     strict_jws = bool(token is not None and not malformed and _STRICT_JWS.match(token))
@@ -514,7 +527,7 @@ def run_case(ctx: Any, rig: Rig, st: State, app: str, caller: dict[str, Any], bo
             f"outcome:{outcome_key(outcome)}", "subject:" + ("malformed" if malformed else "jws" if strict_jws else "jws+newline" if nl_jws else "opaque"))
     if seq is None:
         ctx.case(case, nontrivial=authorised or not malformed, tags=tags)
-        obs = rig.post(app, caller, raw, outcome, ctype)
+        obs = rig.post(app if conf is None else conf["client"], caller, raw, outcome, ctype)
     else:
         ctx.tag(*tags)
         obs = rig.post(seq["client"], caller, raw, outcome, ctype, now_ticks=seq["now"])
@@ -616,7 +629,7 @@ def run_case(ctx: Any, rig: Rig, st: State, app: str, caller: dict[str, Any], bo
         return obs
     if ctx.driver is not None:
         st.pending.append((case, {
-            "cfg": {"allow": [s2j(a) for a in ALLOW], "limiter": app != "limited"},
+            "cfg": {"allow": [s2j(a) for a in allow_cfg], "limiter": app != "limited"},
             "caller": caller_wire(app, caller),
             "req": req,
             "outcome": outcome_wire(rig, outcome),
@@ -648,6 +661,80 @@ def _outcome_uncase(o: dict[str, Any]) -> dict[str, Any]:
     t = o["ttl"]
     v = float(t["float"]) if "float" in t else int(t["int"]) if "int" in t else t["json"]
     return {**o, "ttl": v}
+
+
+# ------------------------------------------------------------------------------------------ configured allow-list x caller grid
+
+ALLOW_SHAPES: list[list[str] | None] = [
+    "proxy@example.com,".split(","),                    # trailing comma -> a blank entry
+    ["proxy@example.com", " "],                         # whitespace-only entry
+    ["", "proxy@example.com", "proxy@example.com"],     # leading blank + duplicate
+    [" proxy@example.com ", "other@example.com"],       # padded entry: names the padded string, nothing else
+    ["\t", "svc-ß", "  ", ""],
+    [" "],                                              # the only name is one space
+    ["proxy@example.com", "Proxy@Example.com", "proxy@example.com\n"],
+    ["", ""],                                           # names nobody -> refused at construction
+    [],
+    None,
+]
+CFG_CALLERS: list[dict[str, Any]] = [
+    {"mode": "anon"},
+    {"mode": "auth", "principal": None},                # authenticated without a principal (API key / mTLS / address allow-list)
+    {"mode": "auth", "principal": ""},
+    {"mode": "auth", "principal": " "},
+    {"mode": "auth", "principal": "\t"},
+    {"mode": "auth", "principal": "  "},
+    {"mode": "auth", "principal": "proxy@example.com"},
+    {"mode": "auth", "principal": " proxy@example.com "},
+    {"mode": "auth", "principal": "proxy@example.com "},
+    {"mode": "auth", "principal": "other@example.com"},
+    {"mode": "auth", "principal": "svc-ß"},
+    {"mode": "auth", "principal": "mallory@example.com"},
+    {"mode": "unauth", "principal": "proxy@example.com"},
+    {"mode": "unauth", "principal": ""},
+    {"mode": "unauth", "principal": None},
+]
+
+
+def gen_allow(rng: Any) -> list[str]:
+    names = ["proxy@example.com", "other@example.com", "svc-ß", "a"]
+    blanks = ["", " ", "  ", "\t", "\n", "\u00a0", "\u3000"]
+    out: list[str] = []
+    for _ in range(rng.randint(1, 5)):
+        r = rng.random()
+        if r < 0.4:
+            out.append(rng.choice(names))
+        elif r < 0.7:
+            out.append(rng.choice(blanks))
+        else:
+            out.append(rng.choice(blanks[1:]) * rng.randint(0, 1) + rng.choice(names) + rng.choice(blanks[1:]) * rng.randint(0, 1))
+    return out
+
+
+def run_config(ctx: Any, rig: Rig, st: State, allow: list[str] | None, callers: list[dict[str, Any]], bodies: list[dict[str, Any]],
+               outcomes: list[dict[str, Any]]) -> None:
+    """One *configuration* (`introspect_principals` as the operator wrote it) x callers x bodies x outcomes."""
+    entries = list(allow or [])
+    base = {"app": "cfg", "allow": allow}
+    try:
+        client = rig.fresh_app(10**9, allow)
+        built = True
+    except ValueError:
+        client, built = None, False
+    ctx.case({**base, "construct": True}, nontrivial=True, tags=("k:configure", f"configure:{'ok' if built else 'refused'}"))
+    if ctx.driver is not None:
+        m = ctx.driver.call("C36.configure", {"allow": [s2j(a) for a in entries]})
+        if (m is not None) != built:
+            ctx.mismatch({**base, "construct": True}, "built" if m is not None else "ValueError", "built" if built else "ValueError",
+                         "_normalise_principals: accepted / refused at construction, model vs implementation")
+    if not built:
+        if any(entries) :
+            _fail(ctx, {**base, "construct": True}, "C36:allowlist-refused-at-construction", f"allow-list {allow!r} names a principal but was refused")
+        return
+    for c in callers:
+        for b in bodies:
+            for o in outcomes:
+                run_case(ctx, rig, st, "cfg", c, b, o, conf={"client": client, "allow": entries})
 
 
 # ------------------------------------------------------------------------------------------ histories on one resource instance
@@ -824,6 +911,15 @@ def run(ctx: Any) -> None:
         for c in CALLERS:
             for b in (BODIES[0], BODIES[8], BODIES[-1]):
                 run_case(ctx, rig, st, "limited", c, b, OUTCOMES[0])
+        # configurations: blank / whitespace-only / duplicate / padded allow-list entries x callers with "", None, blank principals
+        cfg_bodies = [BODIES[0], next(b for b in BODIES if b["cls"] == "jws"), next(b for b in BODIES if b["cls"] == "missing")]
+        cfg_outs = [OUTCOMES[0], next(o for o in OUTCOMES if o["kind"] == "none"), next(o for o in OUTCOMES if o["kind"] == "unavailable")]
+        for al in ALLOW_SHAPES:
+            run_config(ctx, rig, st, al, CFG_CALLERS, cfg_bodies if full else cfg_bodies[:2], cfg_outs if full else cfg_outs[:2])
+        for _ in range(ctx.budget(25, 600)):
+            al = gen_allow(rng)
+            extra = [{"mode": "auth", "principal": e} for e in al] + [{"mode": "auth", "principal": e.strip()} for e in al]
+            run_config(ctx, rig, st, al, rng.sample(CFG_CALLERS, 5) + extra, cfg_bodies[:1], cfg_outs[:1])
         # histories: bursts / interleavings on one resource instance under a controlled clock
         for h in SEQ_CORPUS:
             run_history(ctx, rig, st, h)
@@ -849,6 +945,24 @@ def run(ctx: Any) -> None:
 def replay(ctx: Any, case: dict[str, Any]) -> None:
     if "jws" in case:
         k_jws(ctx, [case["jws"]])
+        return
+    if case.get("app") == "cfg":
+        rig = Rig()
+        st = State()
+        try:
+            if ctx.driver is not None:
+                k = ctx.driver.call("C36.constants", {})
+                st.max_body, st.max_token, st.success_keys = k["max_body"], k["max_token"], k["success_keys"]
+            if case.get("construct"):
+                run_config(ctx, rig, st, case["allow"], [], [], [])
+            else:
+                body = BODIES[case["body_index"]] if case.get("body_index") is not None else {"cls": case["body_cls"], "raw": bytes.fromhex(case["body_hex"])}
+                client = rig.fresh_app(10**9, case["allow"])
+                run_case(ctx, rig, st, "cfg", case["caller"], body, _outcome_uncase(case["outcome"]), case.get("ctype", "application/json"),
+                         conf={"client": client, "allow": list(case["allow"] or [])})
+            st.flush(ctx)
+        finally:
+            rig.close()
         return
     if case.get("app") == "seq":
         rig = Rig()
